@@ -274,6 +274,7 @@ func runC05(c *eng.Ctx) {
 	ruleRebuiltIndexStartsEmpty(c)
 	ruleEpochRecoveryAssignsEveryMissingEpoch(c)
 	ruleRebuildIndexAcceptsGaps(c)
+	ruleRecoveryCutsThePartialTail(c)
 	ruleRebuildDoesNotBoundSizesBySegmentLimit(c)
 	if fn := c.Fn(cl + "(*segment).setupIndex"); fn != nil {
 		// An append writes the log, then the index. A crash in between leaves log bytes the index does not describe: the write
